@@ -183,7 +183,7 @@ theorem macro_body_never_faults (isDefine : Bool) (params : List Nat) (fuel : Na
     (hr : RInv r) :
     (∀ f, parseBody isDefine params fuel r ≠ .fault f) ∧
     (∀ res, parseBody isDefine params fuel r = .done res → res.how = .body → finishBody res ≠ none) := by
-  have hinv : BInv { r := r, pc := .body, buf := [], nameTest := none } :=
+  have hinv : BInv { r := r, pc := .body, buf := [], nameTest := none, inWord := false } :=
     ⟨hr, by show 0 + mpMacroSlack ≤ maxMacroLen; decide, (fun nt h => by cases h), (fun _ => rfl),
       (fun l h => by cases h)⟩
   refine ⟨fun f => run_no_fault (bodyStep_ok isDefine params) fuel _ hinv f, ?_⟩
